@@ -452,16 +452,17 @@ class ReplaceStringApplyString(Contract):
     id = "C12.ReplaceStringTransformation.apply_string_value"
     target = f"{VAL}:ReplaceStringTransformation.apply_string_value"
     props = ("C12",)
-    cases = tuple((skip, interp, ph) for skip in (True, False) for interp in (True, False) for ph in (True, False))
+    cases = tuple((skip, interp, ph, cls) for skip in (True, False) for interp in (True, False) for ph in (True, False) for cls in ("SigmaString", "SigmaCasedString"))
     assumed = ["re.sub and the compiled pattern are external: substitutions are abstract functions of (pattern, replacement, text)"]
 
     def setup(self, E):
         E._c12c_sub = []
         E.externals["re.sub"] = lambda I, a, k: (E._c12c_sub.append(list(a)), I.fresh("backslashes_doubled", "str"))[1]
-        E.summaries["sigma.types:SigmaString"] = lambda I, so, a, k: SObj("NewSigmaString", {"of": a[0] if a else None, "insert_placeholders": NativeFn("ip", lambda I2, a2, k2: SObj("WithPlaceholders", {"of": a[0] if a else None}))})
+        for n in ("SigmaString", "SigmaCasedString"):
+            E.summaries[f"sigma.types:{n}"] = (lambda n: lambda I, so, a, k: SObj("New" + n, {"of": a[0] if a else None, "insert_placeholders": NativeFn("ip", lambda I2, a2, k2: SObj("WithPlaceholders" + n, {"of": a[0] if a else None}))}))(n)
 
     def args(self, I, case):
-        skip, interp, ph = case
+        skip, interp, ph, vcls = case
         del I.E._c12c_sub[:]
         idx = I.E.index
         subs, maps = [], []
@@ -473,13 +474,13 @@ class ReplaceStringApplyString(Contract):
             subs.append((list(a), out))
             return out
         mapped = SObj("Mapped", {})
-        val = SObj(idx.lookup("sigma.types:SigmaString"), {"__str__": NativeFn("__str__", lambda I2, a, k: plain), "contains_placeholder": NativeFn("cp", lambda I2, a, k: ph),
+        val = SObj(idx.lookup(f"sigma.types:{vcls}"), {"__str__": NativeFn("__str__", lambda I2, a, k: plain), "contains_placeholder": NativeFn("cp", lambda I2, a, k: ph),
                                                           "map_parts": NativeFn("map_parts", lambda I2, a, k: (maps.append(list(a)), mapped)[1])}, lazy=True)
         me = SObj(idx.lookup(f"{VAL}:ReplaceStringTransformation"), {"re": SObj("Compiled", {"sub": NativeFn("sub", sub)}), "replacement": repl, "skip_special": skip, "interpret_special": interp}, lazy=True)
         return {"self": me, "args": [I.fresh("field", "str"), val], "subs": subs, "maps": maps, "mapped": mapped, "plain": plain, "repl": repl, "case": case}
 
     def post(self, I, inp, r):
-        skip, interp, ph = inp["case"]
+        skip, interp, ph, vcls = inp["case"]
         c = I.ctx
         if skip:
             ok = r is inp["mapped"] and len(inp["maps"]) == 1 and len(inp["maps"][0]) == 3 and inp["maps"][0][2] is interp
@@ -496,8 +497,8 @@ class ReplaceStringApplyString(Contract):
         c.require(len(inp["subs"]) == 1 and inp["subs"][0][0][0] is inp["repl"] and inp["subs"][0][0][1] is inp["plain"], "the substitution is applied once to the plain form of the whole value")
         es = I.E._c12c_sub
         c.require(len(es) == 1 and es[0][0] == "\\\\(?![*?])" and es[0][1] == "\\\\\\\\" and es[0][2] is inp["subs"][0][1], "backslashes that do not escape a wildcard are doubled in the substituted text (so that parsing it again reads them as backslashes)")
-        want_cls = "WithPlaceholders" if ph else "NewSigmaString"
-        c.require(isinstance(r, SObj) and r.cls == want_cls and isinstance(r.fields.get("of"), Sym), f"the result is parsed from that text{' and its placeholders are inserted again' if ph else ''}")
+        want_cls = ("WithPlaceholders" if ph else "New") + vcls
+        c.require(isinstance(r, SObj) and r.cls == want_cls and isinstance(r.fields.get("of"), Sym), f"the result is a {vcls} (the class of the value: case-sensitive stays case-sensitive) parsed from that text{' and its placeholders are inserted again' if ph else ''}")
 
     def frame_ok(self, I, inp, obj, name):
         return False
